@@ -126,6 +126,12 @@ def extend(g, api):
     fun('dgMustEvict', ['cost', 'recvBuffered', 'window'], 'Bool', DG + '::DatagramState::received eviction loop guard', lambda: rcv('loop'))
     fun('dgWasEmpty', ['recvBuffered'], 'Bool', DG + '::DatagramState::received was_empty', lambda: rcv('empty'))
 
+    def advertised():
+        t = squash(read('quinn-proto/src/transport_parameters.rs'))
+        m = find(r'max_datagram_frame_size: config \.datagram_receive_buffer_size \.map\(\|x\| \((x\.min\(u16::MAX\.into\(\)\)) as u16\)\.into\(\)\),', t, 'advertised max_datagram_frame_size')
+        return translate_expr(m.group(1).replace('u16::MAX.into()', '65535'), {'x': 'window'})
+    fun('dgAdvertisedFrameSize', ['window'], 'Nat', 'quinn-proto/src/transport_parameters.rs::TransportParameters::new max_datagram_frame_size (what the peer is told)', advertised)
+
     def cost_too_big():
         b = body(DG, 'received')
         # a datagram charged more than the whole buffer (an empty one, window 0) is dropped, not buffered, no error
@@ -175,13 +181,17 @@ def extend(g, api):
 
     def overhead(part):
         b = body(CM, 'predict_1rtt_overhead')
-        m = find(r'None => (\d+), \}; (1 \+ self\.rem_cids\.active\(\)\.len\(\) \+ pn_len \+ self\.tag_len_1rtt\(\)) \}$', b, 'predict_1rtt_overhead')
+        m = find(r'None => (\d+), \}; let long_header_extra = match self\.spaces\[SpaceId::Data\]\.crypto \{ Some\(_\) => 0, None => (4 \+ 1 \+ 1 \+ self\.handshake_cid\.len\(\) \+ 2), \}; '
+                 r'(1 \+ self\.rem_cids\.active\(\)\.len\(\) \+ pn_len \+ self\.tag_len_1rtt\(\) \+ long_header_extra) \}$', b, 'predict_1rtt_overhead')
         if part == 0:
             return int(m.group(1))
-        e = m.group(2).replace('self.rem_cids.active().len()', 'cid_len').replace('self.tag_len_1rtt()', 'tag_len')
-        return translate_expr(e, {'cid_len': 'cidLen', 'pn_len': 'pnLen', 'tag_len': 'tagLen'})
+        if part == 2:
+            return translate_expr(m.group(2).replace('self.handshake_cid.len()', 'scid_len'), {'scid_len': 'scidLen'})
+        e = m.group(3).replace('self.rem_cids.active().len()', 'cid_len').replace('self.tag_len_1rtt()', 'tag_len')
+        return translate_expr(e, {'cid_len': 'cidLen', 'pn_len': 'pnLen', 'tag_len': 'tagLen', 'long_header_extra': 'longHeaderExtra'})
     g.nat('dgPnLenBound', CM + '::Connection::predict_1rtt_overhead pn = None', lambda: overhead(0))
-    fun('dgOverhead', ['cidLen', 'pnLen', 'tagLen'], 'Nat', CM + '::Connection::predict_1rtt_overhead', lambda: overhead(1))
+    fun('dgOverhead', ['cidLen', 'pnLen', 'tagLen', 'longHeaderExtra'], 'Nat', CM + '::Connection::predict_1rtt_overhead', lambda: overhead(1))
+    fun('dgLongHeaderExtra', ['scidLen'], 'Nat', CM + '::Connection::predict_1rtt_overhead long header (no 1-RTT keys: 0-RTT packets)', lambda: overhead(2))
     g.nat('dgTagLenGuess', CM + '::Connection::tag_len_1rtt without keys',
           lambda: int(find(r'key\.map_or\((\d+), \|x\| x\.tag_len\(\)\)', body(CM, 'tag_len_1rtt'), 'tag_len_1rtt').group(1)))
 
@@ -195,6 +205,18 @@ def extend(g, api):
         find(r'if let Some\(max_datagram_size\) = self\.datagrams\(\)\.max_size\(\) \{ if self\.datagrams\.drop_oversized\(max_datagram_size\) && self\.datagrams\.send_blocked \{ '
              r'self\.datagrams\.send_blocked = false; self\.events\.push_back\(Event::DatagramsUnblocked\); \} \}', t, 'black hole datagram glue')
         return 1
+    def front():
+        b = body(DG, 'drop_oversized_front')
+        m = find(r'^\{ let mut dropped_any = false; while let Some\(datagram\) = self\.outgoing\.front\(\) \{ if (datagram\.data\.len\(\) [<>=!]+ max_payload) \{ break; \} '
+                 r'trace!\([^;]*\); self\.outgoing_total -= datagram\.data\.len\(\); self\.outgoing\.pop_front\(\); dropped_any = true; \} dropped_any \}$', b, 'drop_oversized_front')
+        t = squash(read(CM))
+        # the glue, and where it runs: at the top of every poll_transmit of a connection that is not closing
+        find(r'fn drop_unsendable_datagrams\(&mut self\) \{ let Some\(max_datagram_size\) = self\.datagrams\(\)\.max_size\(\) else \{ return; \}; '
+             r'if self\.datagrams\.drop_oversized_front\(max_datagram_size\) && self\.datagrams\.send_blocked \{ self\.datagrams\.send_blocked = false; self\.events\.push_back\(Event::DatagramsUnblocked\); \} \}', t, 'drop_unsendable_datagrams')
+        find(r'_ => false, \}; if !close \{ self\.drop_unsendable_datagrams\(\); \}', t, 'poll_transmit purge call site')
+        return translate_expr(m.group(1).replace('datagram.data.len()', 'len'), {'len': 'len', 'max_payload': 'maxPayload'})
+    fun('dgFrontFits', ['len', 'maxPayload'], 'Bool', DG + '::DatagramState::drop_oversized_front stop predicate (+ glue in Connection::poll_transmit)', front)
+
     fun('dgLoopGuard', ['bufLen', 'maxSize'], 'Bool', CM + '::Connection::populate_packet DATAGRAM loop guard', lambda: glue('guard'))
     g.nat('dgBlackHoleGlueShape', CM + '::Connection::detect_lost_packets datagram glue (shape check)', lambda: glue('bh'))
 
